@@ -131,7 +131,7 @@ impl Monitor {
     /// What the stimulus shows the node (only what an honest verifier would accept counts).
     fn absorb_stimulus(&mut self, u: &mut Universe, s: &Stim) {
         match s {
-            Stim::Batch(d) => {
+            Stim::Batch(d) | Stim::Digest(d) => {
                 self.batches.insert(d.0);
             }
             Stim::Msg(ConsensusMessage::Propose(b)) => {
